@@ -140,6 +140,77 @@ def const_sign(r):
     return 1 if val > 0 else -1
 
 
+def full_sign(r, signs):
+    """Sign (+1 / -1 / 0) of r for all positive values of the positive
+    symbols, or None: exact zero test, positive-term analysis, numeric
+    evaluation of constants with radicals (also behind a common positive
+    monomial), and A + k sqrt(B) compared through B - (A / k)^2."""
+    r = reduce_full(r)
+    if r.n.is_zero():
+        return 0
+    sg = rat_sign(r, signs)
+    if sg is None:
+        sg = const_sign(r)
+    if sg is None:
+        sg = _factor_sign(r, signs)
+    if sg is None:
+        sg = _radical_sign(r, signs)
+    return sg
+
+
+def _factor_sign(r, signs):
+    """Sign through the common positive monomial: (m * A) / (n * B) with
+    m, n monomials in positive symbols and A, B constants with
+    radicals."""
+    r = cancel_mono(r)
+    sn = _poly_factor_sign(r.n, signs)
+    sd = _poly_factor_sign(r.d, signs)
+    if sn is None or sd is None or sd == 0:
+        return None
+    return sn * sd
+
+def _poly_factor_sign(p, signs):
+    sg = poly_sign(p, signs)
+    if sg is not None:
+        return sg
+    mono, rest = _pos_monomial_split(p, signs)
+    if not mono:
+        return None
+    return const_sign(Rat(rest))
+
+
+
+def _radical_sign(r, signs):
+    """A + k sqrt(B) with k of known sign over a denominator of known sign:
+    the sign is that of k when A has the same sign or B - (A / k)^2 > 0,
+    and that of A when B - (A / k)^2 < 0."""
+    sd = poly_sign(r.d, signs)
+    if not sd:
+        return None
+    num = Rat(r.n)
+    rad = [v for v in num.vars() if isinstance(v, SAtom) and
+           v[0] == 'sqrt' and isinstance(v[1], Rat)]
+    if len(rad) != 1 or r.n.degree(rad[0]) != 1:
+        return None
+    q = rad[0]
+    k = num.diff(q)
+    A = num.subs({q: Rat.const(0)})
+    sk = rat_sign(k, signs)
+    if not sk:
+        return None
+    sA = rat_sign(A, signs)
+    if sA is not None and sA * sk >= 0:
+        return sk * sd
+    gap = rat_sign(reduce_full(q[1] - (A / k) * (A / k)), signs)
+    if gap is None:
+        return None
+    if gap > 0:
+        return sk * sd
+    if gap < 0 and sA is not None:
+        return sA * sd
+    return None
+
+
 def ired(r):
     """Reduce modulo I**2 = -1."""
     if 'I' in r.vars():
@@ -276,22 +347,40 @@ def root(r, b, signs=None):
                 return Rat.const(Fr(rn, rd))
             # canonical radical: (n/d)^(1/b) = (n d^(b-1))^(1/b) / d with the
             # b-th power factors of the integer radicand pulled out
+            # and the rest split into prime powers (a normal form: the
+            # radicals of distinct primes are multiplicatively independent)
             m = n * d ** (b - 1)
-            outf, rad, f = 1, 1, 2
+            outf, f = 1, 2
+            res = Rat.const(1)
             while f * f <= m and f < 10 ** 6:
                 e = 0
                 while m % f == 0:
                     m //= f
                     e += 1
                 outf *= f ** (e // b)
-                rad *= f ** (e % b)
+                if e % b:
+                    res = res * _root_atom(Rat.const(f ** (e % b)), b)
                 f += 1
-            rad *= m
-            if rad == 1:
-                return Rat.const(Fr(outf, d))
-            return Rat.const(Fr(outf, d)) * _root_atom(Rat.const(rad), b)
+            if m != 1:
+                res = res * _root_atom(Rat.const(m), b)
+            return Rat.const(Fr(outf, d)) * res
     if signs is None:
         signs = Signs()
+    if b == 2:
+        # perfect squares of polynomials with positive terms in positive
+        # symbols, in the numerator and / or the denominator:
+        # sqrt(c (a + b)^2) = sqrt(c) (a + b)
+        fac, n_, d_, changed = Rat.const(1), r.n, r.d, False
+        if len(n_.t) > 1:
+            q = _poly_sqrt(n_, signs)
+            if q is not None:
+                fac, n_, changed = fac * Rat(q[1]), Poly.const(q[0]), True
+        if len(d_.t) > 1:
+            q = _poly_sqrt(d_, signs)
+            if q is not None:
+                fac, d_, changed = fac / Rat(q[1]), Poly.const(q[0]), True
+        if changed:
+            return fac * root(Rat(n_, d_), 2, signs)
     out = Rat.const(1)
     num, den = r.n, r.d
     parts = []
@@ -331,7 +420,61 @@ def root(r, b, signs=None):
             rn, rd = round(n ** (1.0 / b)), round(d ** (1.0 / b))
             if rn ** b == n and rd ** b == d:
                 return out * Rat.const(Fr(rn, rd))
+            return out * root(rest, b, signs)
     return out * _root_atom(rest, b)
+
+
+def _poly_sqrt(p, signs):
+    """(c, q) with p == c * q * q, c a positive rational and q a polynomial
+    in positive symbols with positive coefficients (so q > 0), or None.
+    Leading-term algorithm under a graded order."""
+    if not p.t:
+        return None
+    for m in p.t:
+        for v, e in m:
+            if not signs.is_pos_var(v):
+                return None
+
+    allv = sorted({v for m in p.t for v, e in m}, key=_vkey, reverse=True)
+
+    def key(m):
+        dm = dict(m)
+        return (sum(e for v, e in m), tuple(dm.get(v, 0) for v in allv))
+
+    def lead(poly):
+        m = max(poly.t, key=key)
+        return m, poly.t[m]
+
+    def mdiv(m, d):
+        dm = dict(m)
+        for v, e in d:
+            if dm.get(v, 0) < e:
+                return None
+            dm[v] -= e
+        return tuple(sorted(((v, e) for v, e in dm.items() if e),
+                            key=lambda z: _vkey(z[0])))
+    m0, c0 = lead(p)
+    if c0 <= 0 or any(e % 2 for v, e in m0):
+        return None
+    P = p * Poly.const(1 / c0)
+    q0 = tuple((v, e // 2) for v, e in m0)
+    Q = Poly({q0: Fr(1)})
+    for _ in range(len(p.t) + 2):
+        R = P - Q * Q
+        if R.is_zero():
+            if all(c > 0 for c in Q.t.values()):
+                return c0, Q
+            return None
+        m, c = lead(R)
+        t = mdiff_mono = mdiv(m, q0)
+        if t is None:
+            return None
+        Q = Q + Poly({t: c / 2})
+    return None
+
+
+def _vkey(v):
+    return repr(v)
 
 
 def _root_atom(r, b):
